@@ -556,7 +556,8 @@ func (g *gen) lookalikes() {
 			g.op(fmt.Sprintf("fetch @%d", i+1))
 			g.checkFetch(g.e.w, "lookalike", g.e.labels[i], false)
 		}
-		g.op("enum - 0")
+		// (no enum here: the lookalike's own ref differs between the real cipher and the model's, and so
+		// would its place in the enumeration)
 		g.r.Distinct("lookalike:" + name + ":" + out)
 		g.r.Hit("lookalike:" + name + ":" + out)
 		g.leakScan()
